@@ -7,6 +7,7 @@ import (
 	"os"
 	"path"
 	"path/filepath"
+	"sort"
 	"strings"
 
 	"github.com/johannesboyne/gofakes3"
@@ -121,4 +122,14 @@ func removeEmptyParents(fs afero.Fs, root, objectPath string) {
 			return
 		}
 	}
+}
+
+// sortObjectList puts a listing assembled in directory order into the order
+// S3 lists in: ascending byte order of the keys and of the common prefixes
+// ("a-b" sorts before "a/b", but the directory "a" is visited before "a-b").
+func sortObjectList(list *gofakes3.ObjectList) {
+	sort.Slice(list.Contents, func(i, j int) bool { return list.Contents[i].Key < list.Contents[j].Key })
+	sort.Slice(list.CommonPrefixes, func(i, j int) bool {
+		return list.CommonPrefixes[i].Prefix < list.CommonPrefixes[j].Prefix
+	})
 }
